@@ -730,3 +730,100 @@ func checkSpans(text []byte, root formula.Node) string {
 	}
 	return walk(root, want)
 }
+
+// TestC15Long: programs of hundreds of lines; ranges, spans and diagnostics far from the start.
+func TestC15Long(t *testing.T) {
+	run := h.Begin("C15", "long", "rapid: programs of 100..600 small generated items, one or a few per line (all six line-break forms, lines up to 400 bytes), in a list, an argument list or a comma sequence (<=80 items there); (i) accepted: the ranges / own-text / span oracle on every node; (ii) the same text with one token removed, doubled or replaced near the end: the diagnostics oracle (position hundreds of lines and columns from the start); non-trivial: >=100 lines; distinct by text")
+	defer run.End(t)
+	h.RapidSetup(h.N(40, 6000), "c15long")
+	rapid.Check(t, func(rt *rapid.T) {
+		shape := rapid.IntRange(0, 2).Draw(rt, "shape")
+		n := rapid.IntRange(100, 600).Draw(rt, "n")
+		if shape == 2 {
+			n = rapid.IntRange(30, 80).Draw(rt, "ncomma")
+		}
+		perLine := rapid.SampledFrom([]int{1, 1, 2, 5, 40}).Draw(rt, "perline")
+		var ast *ref.Node
+		switch shape {
+		case 0:
+			ast = &ref.Node{Kind: "arr"}
+		case 1:
+			ast = &ref.Node{Kind: "call", Kids: []*ref.Node{{Kind: "id", Val: "f"}}}
+		}
+		for i := 0; i < n; i++ {
+			it := genExpr(rt, &syntaxCfg, rapid.IntRange(0, 2).Draw(rt, "depth"), ref.LvAssign)
+			switch {
+			case shape < 2:
+				ast.Kids = append(ast.Kids, it)
+			case ast == nil:
+				ast = it
+			default:
+				ast = &ref.Node{Kind: "bin", Op: ",", Kids: []*ref.Node{ast, it}}
+			}
+		}
+		toks := ast.Flatten()
+		seps := make([]string, len(toks)+1)
+		items := 0
+		for i, tk := range toks {
+			seps[i] = ""
+			if i > 0 {
+				seps[i] = rapid.SampledFrom([]string{"", " ", " ", "\t"}).Draw(rt, "ws")
+			}
+			if i > 0 && toks[i-1].Text == "," && !tk.NoNLBefore {
+				if items++; items%perLine == 0 {
+					seps[i] = rapid.SampledFrom(c15Breaks).Draw(rt, "brk") + rapid.SampledFrom([]string{"", "  ", "\t"}).Draw(rt, "indent")
+				}
+			}
+		}
+		text := ref.Join(toks, seps)
+		lines := len(refLineStarts([]byte(text)))
+		run.CountKey(text, lines >= 100, "")
+		if len(text) < 500 {
+			run.Sample("long", text)
+		}
+		msg := checkRanges([]byte(text))
+		if msg == "" && !obs.Parse([]byte(text)).OK() {
+			msg = fmt.Sprintf("generated program %q rejected", text)
+		}
+		kind, bad := "c15-ranges", text
+		if msg == "" {
+			// one token near the end removed, doubled or replaced
+			at := len(toks) - 1 - rapid.IntRange(0, 30).Draw(rt, "fromend")
+			if at < 0 {
+				at = 0
+			}
+			mut := append([]ref.PTok(nil), toks...)
+			switch rapid.IntRange(0, 2).Draw(rt, "mut") {
+			case 0:
+				mut = append(mut[:at:at], mut[at+1:]...)
+			case 1:
+				mut = append(mut[:at+1:at+1], mut[at:]...)
+			default:
+				mut[at] = ref.PTok{Text: rapid.SampledFrom([]string{")", "]", "?", ":", "'x", "1e", "..."}).Draw(rt, "repl")}
+			}
+			ms := append([]string(nil), seps...)
+			for len(ms) < len(mut)+1 {
+				ms = append(ms, " ")
+			}
+			for i := range ms {
+				if ms[i] == "" && i > 0 && i < len(mut) {
+					ms[i] = " "
+				}
+			}
+			bad = ref.Join(mut, ms[:len(mut)+1])
+			var had bool
+			msg, had = checkDiagnostics([]byte(bad))
+			if had {
+				run.Class("late-diagnostic")
+			}
+			kind = "c15-diag"
+		}
+		if msg != "" {
+			if len(msg) > 1500 {
+				msg = msg[:700] + " ... " + msg[len(msg)-700:]
+			}
+			run.Pending("long", kind, mkTextCase(bad, ""), msg)
+			rt.Fatalf("%s", msg)
+		}
+	})
+}
